@@ -395,6 +395,13 @@ type TailStr struct {
 	S  string
 }
 `},
+	// tailstr without its last column (a reader generated from an older
+	// version of the struct)
+	{Name: "idonly", Type: "IDOnly", Src: `
+type IDOnly struct {
+	ID int32
+}
+`},
 	// single-column records: the last column of a row group is also the
 	// first column of the next one
 	{Name: "one", Type: "One", Src: `
